@@ -6,7 +6,7 @@ from jugverif import core, execchecks as X, execengine as E, lib, sched
 
 LEVEL = 'proof'
 THEOREMS = ['Jug.C13.recovery_completes', 'Jug.C13.recovery_state_ok', 'Jug.C13.crash_always_enabled', 'Jug.C13.crash_preserves', 'Jug.C13.crash_keeps_results_correct', 'Jug.C13.residue_is_own_locks',
-            'Jug.C13.survivors_skip', 'Jug.C13.recovery', 'Jug.C13.recovery_no_rerun', 'Jug.C13.recovered_task_can_be_locked']
+            'Jug.C13.survivors_skip', 'Jug.C13.recovery', 'Jug.C13.recovery_no_rerun', 'Jug.C13.recovered_task_can_be_locked', 'Jug.LoopBridge.recovery_completes_of_loop_workers']
 
 
 def cleanup_locks_only(backend):
